@@ -168,6 +168,10 @@ class RDSystem :
         self.network = network
         self.space = space
 
+        for env_index in self.space.get_cell_env_array() :
+            if env_index < 0 or env_index >= self.network.nenvironments() :
+                raise ValueError("cell environment index "+str(env_index)+" does not refer to one of the network's environments.")
+
         if isnone(state) : 
             self.set_default_state()
         elif isdict(state) :
